@@ -3,8 +3,8 @@ import random
 from .. import core, gen, ref
 from . import cu
 
-MODULES = ['DsdVerif.Props.C08', 'DsdVerif.Props.PyFuncs', 'DsdVerif.Props.C08Dlc', 'DsdVerif.Lemmas.PyObjExt']
-GEN_FILES = ['PyFuncs', 'PyComplexS']
+MODULES = ['DsdVerif.Props.C08', 'DsdVerif.Props.PyFuncs', 'DsdVerif.Props.C08Dlc', 'DsdVerif.Lemmas.PyObjExt', 'DsdVerif.Props.PyComplexS2']
+GEN_FILES = ['PyFuncs', 'PyComplexS', 'PyComplexS2']
 THEOREM_NAMES = ['loop_index_spec', 'loop_index_modes_agree', 'exterior_spec', 'not_connected_of_error', 'error_of_not_connected',
                  'makeLoopIndex_linear',
                  # object level (Model/CplxObject): Props/C08Obj.lean
@@ -19,7 +19,9 @@ THEOREMS = ['Dsd.C08.' + t for t in THEOREM_NAMES] + ['Dsd.PyFuncs.' + t for t i
     'dlc_of_make_pair_table', 'dlc_one_sided_of_make_pair_table', 'mpt_partner_valid']] + [
     # exterior_domains / enclosed_domains / __loop_index as written in the source (Gen/PyComplexS.lean): on a coherent object they answer
     # the cache-free specification edSpec / liSpec (raising exactly when it raises) and leave the object coherent
-    'Dsd.PyObj.Ext.view_exterior', 'Dsd.PyObj.Ext.view_enclosed', "Dsd.PyObj.Ext.exec_p_loop_index'"]
+    'Dsd.PyObj.Ext.view_exterior', 'Dsd.PyObj.Ext.view_enclosed', "Dsd.PyObj.Ext.exec_p_loop_index'"] + ['Dsd.PyComplexS2.' + t for t in [
+    # is_domainlevel_complement as written in the source (translator/pycomplex2.py -> Gen/PyComplexS2.lean; a domain is (name, length), `~` a parameter)
+    'py_dlc_eq', 'py_dlc_no_pair_table', 'py_dlc_true_iff', 'py_dlc_false_iff', 'py_dlc_total', 'py_dlc_error', 'py_dlc_of_make_pair_table']]
 ASSUMPTIONS = [
     'make_loop_index is hand-modelled on linear positions (Model/Complex.lean: loopStep, makeLoopIndex) and tied to the code by the '
     'correspondence stream `loop` (both `components` modes)',
@@ -232,6 +234,8 @@ def run(res, proof):
     ximpl = [cu.impl_op(cux, op) for op in xops]
     res.evaluations += len(xops)
     cu.source_derived_stream(res, proof, 'complex_utils.loop_index.source-derived', ops + xops, impl + ximpl)
+    from .pycomplex2_stream import source_derived_pycomplex2
+    source_derived_pycomplex2(res, proof)      # is_domainlevel_complement / split as translated from the working tree
     for op in ops[::max(1, len(ops) // 8)]:
         res.sample('\t'.join(op))
 
